@@ -1,6 +1,6 @@
 """C01 — HexaryTrie behaves as a byte-string map under every history (DESIGN §5 C01)."""
 from ..report import Report
-from .common import run_hex, replay_hex
+from .common import add_scale, run_hex, replay_hex
 
 replay = replay_hex
 
@@ -47,4 +47,5 @@ def run(tier, seed):
                     exits=("commit", "abort"))
             run_hex(rep, f"H3xSL batch<=3 prune={prune}", universe="H3", values=("S", "L"), prune=prune, props=P, batch_len=3,
                     exits=("commit",))
+    add_scale(rep, "C01")
     return rep
